@@ -114,8 +114,11 @@ func c21Site(enc string) string {
 }
 
 var (
-	c21TracePool  = []string{"trace.trace_id", "traceId", "trace_id", "tid", "app.trace"}
-	c21ParentPool = []string{"trace.parent_id", "parentId", "parent_id", "pid"}
+	// The meta.-prefixed names are NOT names Refinery reserves for its own metadata
+	// (types.Meta*): an operator may configure any field name, and both extraction
+	// paths special-case the "meta." prefix.
+	c21TracePool  = []string{"trace.trace_id", "traceId", "trace_id", "tid", "app.trace", "meta.trace_ref", "meta.w3c.trace"}
+	c21ParentPool = []string{"trace.parent_id", "parentId", "parent_id", "pid", "meta.parent_span_id", "meta.refinery_parent"}
 )
 
 func c21Contains(xs []string, x string) bool {
@@ -312,7 +315,7 @@ func c21Judge(run *verifkit.Run, enc string, m c21Model, got c21Observed, rep in
 func TestVerif_C21(t *testing.T) {
 	run := verifkit.Start(t, "C21", "route")
 	defer run.Finish()
-	run.Rule("per case: PRNG-chosen TraceNames/ParentNames lists (1-4 / 0-3 names from small pools, random order) and an event whose payload carries a random subset of configured and unconfigured ID-ish fields, meta.trace_id, meta.signal_type and filler fields in random payload order with values typed {non-empty string, empty string, int, float, bool, nil, array, map}; while the destination's sampler is deterministic, dynamic (FieldList) or rules-based (conditions) over PRNG-chosen fields that include configured ID fields; sent 8x identically through each of /1/events JSON+msgpack and /1/batch JSON+msgpack on the incoming or peer listener (plus OTLP traces/logs over HTTP and gRPC with attributes named like configured ID fields); non-trivial = event holds >=2 distinct non-empty configured trace-ID strings, or meta.trace_id together with an ID field, or a parent ID, or is a log; distinct = (encoding, id class, root class, relative payload order of the held ID fields vs configured order)")
+	run.Rule("per case: PRNG-chosen TraceNames/ParentNames lists (1-4 / 0-3 names from small pools that include meta.-prefixed names which are not Refinery's own metadata names, random order) and an event whose payload carries a random subset of configured and unconfigured ID-ish fields, meta.trace_id, meta.signal_type and filler fields in random payload order with values typed {non-empty string, empty string, int, float, bool, nil, array, map}; while the destination's sampler is deterministic, dynamic (FieldList) or rules-based (conditions) over PRNG-chosen fields that include configured ID fields; sent 8x identically through each of /1/events JSON+msgpack and /1/batch JSON+msgpack on the incoming or peer listener (plus OTLP traces/logs over HTTP and gRPC with attributes named like configured ID fields); non-trivial = event holds >=2 distinct non-empty configured trace-ID strings, or meta.trace_id together with an ID field, or a parent ID, or is a log; distinct = (encoding, id class, root class, relative payload order of the held ID fields vs configured order)")
 	run.Assume("the recording collector/transmission snapshots are taken synchronously inside the handler; Span.TraceID/IsRoot handed to Collector.AddSpan* is the router's final answer")
 	run.Assume("for OTLP the event's field set is read back from the payload handed to the collector (husky decides it), the statement is then applied to that field set")
 
